@@ -458,6 +458,35 @@ func (c06) Exec(script interface{}, c *core.Ctx) {
 			c.Fail("parse_payload", "newpmt:modified_input", "changed", "unchanged")
 			return
 		}
+		// the lists the getters hand out are the caller's to extend: appending to one stream's
+		// descriptor list does not reach into another stream's
+		var extra psi.PmtDescriptor
+		okA := c.Call("append to every descriptor list handed out", func() {
+			for _, es := range pm.ElementaryStreams() {
+				if ds := es.Descriptors(); len(ds) > 0 && extra == nil {
+					extra = ds[len(ds)-1]
+				}
+			}
+			if extra == nil {
+				return
+			}
+			for _, es := range pm.ElementaryStreams() {
+				l := append(es.Descriptors(), extra)
+				_ = l
+			}
+		})
+		if !okA {
+			return
+		}
+		if extra != nil {
+			c.Probe("caller_appended_to_the_descriptor_lists")
+			if d := comparePMT(c, pm, s.PMT); d != "" {
+				if d != "panic" {
+					c.Fail("parse_payload", "newpmt:after_caller_appended_to_descriptor_lists:"+clauseOf(d), d, "the abstract PMT")
+				}
+				return
+			}
+		}
 	}
 
 	// --- completion predicate on every prefix (crash points of the sender)
